@@ -128,6 +128,14 @@ theorem default_cfg_valid_and_capacity :
     2 ^ 43 ≤ Zix.Generated.btreeDefaultCfg.minElems (Zix.Generated.btreeDefaultCfg.maxHeight + 1) := by
   refine ⟨⟨by decide, by decide, by decide⟩, by decide⟩
 
+/-- The minimum occupancies the model works with are the ones `zix_btree_min_vals` computes in the
+default build (regenerated by compiling src/btree.c and calling the static function on a leaf and
+on an internal node): a "simplified" formula in the code breaks this theorem whatever histories
+the correspondence run happens to generate. -/
+theorem default_min_vals_are_the_codes :
+    (Zix.Generated.btreeDefaultCfg.minVals (.leaf 0 []), Zix.Generated.btreeDefaultCfg.minVals (.inode 0 [] []))
+      = Zix.Generated.btreeDefaultMinVals := by decide
+
 /-- The corrected bound is tight to within a factor of two. -/
 theorem default_cfg_capacity_lt :
     Zix.Generated.btreeDefaultCfg.minElems (Zix.Generated.btreeDefaultCfg.maxHeight + 1) < 2 ^ 44 := by
